@@ -2,6 +2,7 @@ SPECIFICATION DispSpec
 CONSTANTS
   NP = 2
   MaxCalls = 3
+  NFull = 4
   MaxOps = 100000
   LogOn = FALSE
   U = "mc2"
